@@ -22,7 +22,7 @@ from ..acc import Acc
 ID = "C04"
 LEVEL = "exploration"
 TECHNIQUE = "bounded-exhaustive enumeration of MapSpec pipelines x persisting storages x load histories, observed in the writing interpreter and in a fresh interpreter started after the writer (and its managers) exited"
-RULE = ("G-MAP pipelines (all 1-function pipelines; 2-function pipelines with a single-output first function whose second function consumes only `a`; thorough: every 2-function pipeline whose second function consumes `a` alone or `a` and its sibling `b`) x storage "
+RULE = ("G-MAP pipelines (all 1-function pipelines with one, two or three outputs; 2-function pipelines with a single-output first function whose second function consumes only `a`; thorough: every 2-function pipeline whose second function consumes `a` alone or `a` and its sibling `b`) x storage "
         "{file_array, dict+persist, shared_memory_dict+persist, per-output mix} x load history = a de Bruijn sequence over {load_outputs(all), RunInfo.load, load_xarray_dataset} "
         "in which every entry point follows every other one (quick: ORXO in the writer and again in the fresh interpreter; thorough: a de Bruijn sequence with every ordered pair), executed first in the writing process and then again in a fresh interpreter. "
         "non-trivial = distinct (pipeline shape, storage assignment) with a mapped axis, observed in the fresh interpreter")
@@ -255,6 +255,8 @@ def run_batch(cases, seq):
 
 # ------------------------------------------------------------------------------------------------
 def specs_for(tier):
+    # one function with THREE outputs: run_info.json spells the tuple-named keys "a,b,d"
+    yield from gen_map.pipelines(1, f_outs=[("a", "b", "d")])
     for s in gen_map.pipelines(2, "quick"):
         g = s["funcs"][1]["params"] if len(s["funcs"]) == 2 else None
         if g is None or (len(g) == 1 and len(s["funcs"][0]["outs"]) == 1):
@@ -280,7 +282,9 @@ def run_unit(unit):
         if k % n != c:
             continue
         sts = storages_for(spec)
-        if len(spec["funcs"]) == 2:
+        if len(spec["funcs"][0]["outs"]) == 3:
+            sts = [sts[0], {"a,b,d": "dict", "": "file_array"}]
+        elif len(spec["funcs"]) == 2:
             sts = [sts[3]] if tier == "quick" else [sts[0], sts[3]]  # quick bound for 2-function pipelines: the file_array + shared_memory_dict mix
         for st in sts:
             cases.append({"spec": spec, "storage": st})
